@@ -197,6 +197,9 @@ pub struct Rec {
     pub now: Ts,
     /// Open descriptors (files + dir streams) of the process after the call.
     pub nfds: usize,
+    /// Times of the target inode before a utimens/futimens call.
+    pub prev_atime: Ts,
+    pub prev_mtime: Ts,
 }
 
 impl Rec {
@@ -945,6 +948,8 @@ impl Sim {
             injected: false,
             now: st.fs.now,
             nfds: 0,
+            prev_atime: 0,
+            prev_mtime: 0,
         };
         if req.fd >= 0 {
             if let Some(e) = st.procs[proc].fds.get(&req.fd) {
@@ -958,6 +963,13 @@ impl Sim {
         }
         if !req.raw2.is_empty() {
             rec.path2 = st.fs.resolve(&req.raw2).map(|r| r.canon).unwrap_or_default();
+        }
+        if matches!(kind, K::Utimens | K::Futimens) {
+            let ino = if kind == K::Futimens { rec.ino } else { st.fs.lookup(&req.raw).unwrap_or(0) };
+            if let Some(i) = st.fs.inodes.get(&ino) {
+                rec.prev_atime = i.atime;
+                rec.prev_mtime = i.mtime;
+            }
         }
         let result: Result<R, Errno> = if let Some(e) = injected {
             *st.faults_fired.entry((kind, e)).or_insert(0) += 1;
